@@ -3,6 +3,7 @@ import BFL.Proofs.BoundsSigma
 import BFL.Proofs.BoundsCorr
 import BFL.Proofs.BoundsPart
 import BFL.Proofs.BoundsFilt
+import BFL.Proofs.BoundsHand
 set_option linter.unusedSimpArgs false
 /-
 C14 — no operation reads or writes outside its matrices or mixes incompatible sizes.
@@ -683,5 +684,106 @@ theorem safe_gm_augment_aliased (K : Nat) (L : Layout) (hK : 1 ≤ K) : (gmaugAl
 example : kfpValid ⟨3, 0, false, 0⟩ 2 ⟨3, 0, false, 0⟩ 2 3 .state true false := by decide
 example : ukfpValid false ⟨1, 1, true, 0⟩ 2 0 2 ⟨1, 1, true, 0⟩ 2 := by decide
 example : sisValid 4 3 1 .two 2 := by decide
+
+/-! ## Round 4: hand-over incl. self move, EstimatesExtraction move operations, Logger, filter skip plumbing, default virtuals -/
+
+/-- Every kind of hand-over (move / copy assignment and construction, `A = static_cast<const T&&>(B)`, and the self move
+    `B = std::move(B)` behind the guard `if (this == &other) return *this;`) leaves an object in use that is configured as
+    the source `B` was: the case the tie runs on it afterwards is the case of `B`'s configuration. -/
+theorem handover_keeps_configuration {α : Type} (k : HandKind) (a : Option α) (b : α) :
+    (handStep k true a (some b)).1 = some b := by
+  cases k <;> rfl
+
+/-- … and only the moves consume the source -/
+theorem handover_source_after {α : Type} (k : HandKind) (a : Option α) (b : α) :
+    (handStep k true a (some b)).2 = (if k = .moveAssign ∨ k = .moveConstruct then none else some b) := by
+  cases k <;> simp [handStep]
+
+/-- the guard is what a class needs whose move assignment resets the source's members (`HistoryBuffer`: `window_ = other.window_;
+    other.window_ = 0;`): without it the self move leaves no usable object -/
+theorem unguarded_self_move_counterexample : (handStep .selfMoveAssign false (none : Option Nat) (some 3)).1 = none := rfl
+
+/-- EstimatesExtraction: any sequence of extractions (all 12 methods, both overloads), window changes, move construction,
+    self move and move ASSIGNMENT from / into an extractor of other sizes, window, method and fill level — the object in use
+    always holds a window of vectors of ITS `linear + circular` size. -/
+theorem safe_estimates_extraction_handover (ls cs N : Nat) (ops : List EEOp) (hN : 1 ≤ N) : (eeHandCase ls cs N ops).Safe := by
+  unfold eeHandCase
+  simp only [safe_bind, safe_pure, and_true]
+  exact eeHandRun_safe N hN ops _ (eeNew_inv ls cs)
+
+/-- a move assignment that hands the history buffer over but keeps its own `linear_size_` / `state_size_`: the next windowed
+    extraction pushes a 2-vector into a window of 4-vectors -/
+theorem unsafe_estimates_extraction_move_assign_keeping_sizes_counterexample :
+    ¬ (eeExtract (eeMoveAssignKeepingSizes (EEState.new 2 0) { EEState.new 3 1 with hist := ⟨5, 4, [4, 4]⟩ }) .smean false
+        ⟨⟨2, 3⟩, 3, 3, 3, ⟨3, 3⟩⟩).Safe ∧
+    (eeExtract { EEState.new 3 1 with hist := ⟨5, 4, [4, 4]⟩ } .smean false ⟨⟨4, 3⟩, 3, 3, 3, ⟨3, 3⟩⟩).Safe := by decide
+
+example : (eeHandCase 2 1 3 [.extract .smean false, .moveAssignFrom 4 0 2 3 .wmode, .extract .emap true, .moveSelf,
+    .moveAssignInto 1 1 0 2 .mean, .setWindow 7, .extract .wmean false, .moveConstruct, .extract .smap false]).Safe := by decide
+
+/-- Logger: for a class whose `log()` hands at most as many data to `logger(…)` as its `log_file_names()` names files, any
+    history of `enable_log` (folder present or not), `disable_log`, `log()` and queries keeps every `log_files_[pos]` inside
+    the vector of open streams. -/
+theorem safe_logger (sp : LogSpec) (ops : List LogOp) (h : logValid sp) : (logCase sp ops).Safe := by
+  unfold logCase
+  simp only [safe_bind, safe_pure, and_true]
+  exact logRun_safe sp h ops LogSt.init (by simp [LogSt.inv, LogSt.init])
+
+/-- the shipped Logger classes (SimulatedStateModel, SimulatedLinearSensor, SIS) satisfy that contract -/
+theorem logger_shipped_valid (cls n k : Nat) (h : 1 ≤ cls ∧ cls ≤ 3) : logValid (logSpecOf cls n k) := by
+  obtain ⟨h1, h2⟩ := h
+  have : cls = 1 ∨ cls = 2 ∨ cls = 3 := by omega
+  rcases this with rfl | rfl | rfl <;> simp [logValid, logSpecOf]
+
+/-- the contract is needed: two data over one file name read `log_files_[1]` of a one-element vector — but only while the log
+    is enabled -/
+theorem unsafe_logger_more_data_than_files_counterexample :
+    ¬ (logCase ⟨1, 2⟩ [.enable true 0, .log]).Safe ∧ (logCase ⟨1, 2⟩ [.enable true 0, .disable, .log]).Safe ∧
+    (logCase ⟨1, 2⟩ [.enable false 0, .log]).Safe := by decide
+
+/-- `GaussianFilter::skip` in front of filtering steps (KFPrediction + KFCorrection): whatever command history — known and
+    unknown names, "exogenous" without an exogenous model (throws, nothing changes) — the steps run on consistent shapes. -/
+theorem safe_gaussian_filter (hasExo : Bool) (fn K hm : Nat) (cmds : List (SkipWhat × Bool)) (steps : Nat)
+    (h : gfValid fn K hm) : (gfCase hasExo fn K hm cmds steps).Safe := by
+  obtain ⟨hfn, hK, hhm⟩ := h
+  unfold gfCase
+  split
+  · simp
+  · simp only [safe_bind, safe_pure, and_true, safe_forRange]
+    intro _ _
+    exact gfStep_safe fn K hm _ hasExo hfn hK hhm
+
+/-- `ParticleFilter::skip` in front of `SIS::filtering_step`s (DrawParticles with / without exogenous model,
+    BootstrapCorrection, Resampling): every command history, every resampling decision, every scan comparison. -/
+theorem safe_particle_filter_skip (hasExo : Bool) (N lin circ : Nat) (d : Dim) (nx ny hm : Nat) (cmds : List (SkipWhat × Bool))
+    (steps : Nat) (resampleAt : Nat → Bool) (gt : Nat → Nat → Bool) (h : sisValid N lin circ d hm) :
+    (pfCase hasExo N lin circ d nx ny hm cmds steps resampleAt gt).Safe := by
+  obtain ⟨hN, hd, hhm⟩ := h
+  unfold pfCase
+  split
+  · simp
+  · simp only [safe_bind, safe_pure, and_true]
+    exact pfRun_safe N lin circ d nx ny hm steps hasExo _ resampleAt gt hN hd
+
+/-- unknown step names are refused without any change, "exogenous" without a model throws without any change -/
+theorem filter_skip_refusals (hasExo : Bool) (st : SkipSt) (b : Bool) :
+    filterSkip hasExo st .unknown b = some (st, false) ∧ filterSkip false st .exogenous b = none := ⟨rfl, rfl⟩
+
+/-- the default virtuals reached through shipped classes report through an exception; the only matrix operation in front of
+    one (`LinearStateModel::propagate` inside `AdditiveStateModel::motion` of an LTIStateModel) is consistent -/
+theorem safe_default_virtuals (which fn sr N : Nat) (h : defaultsValid which fn sr) :
+    (defaultsCase which fn sr N).Safe ∧ (defaultsCase which fn sr N).val = none := by
+  unfold defaultsCase
+  split
+  · have := h rfl
+    subst this
+    split
+    · simp
+    · simp [linPropagate]
+  · simp
+
+example : gfValid 3 2 2 := by decide
+example : (gfCase true 2 2 1 [(.state, true), (.exogenous, true), (.unknown, true), (.all, false), (.correction, true)] 2).Safe := by decide
+example : logValid (logSpecOf 3 0 0) := by decide
 
 end BFL.Bounds
